@@ -503,28 +503,42 @@ fn cmd_check(engine: &dyn Engine, prop: &str, tier: Tier, known: &Known) -> i32 
         }
     }
 
-    // minimise + verify + report own violations (at most 4 distinct signatures)
+    // minimise + verify + report own violations (at most 4 distinct signatures, minimised in parallel)
     let mut reported = Vec::new();
     let exe = std::env::current_exe().unwrap();
     let replay_dir = verif_root().join("replays");
     let _ = std::fs::create_dir_all(&replay_dir);
-    for (sig, (idx, tape, v)) in own.iter().take(4) {
-        let deadline = Instant::now() + Duration::from_secs(90);
-        let target_sig = sig.clone();
+    let picked: Vec<(&String, &(u64, Vec<u32>, Violation))> = own.iter().take(4).collect();
+    let minimised: Vec<(Vec<u32>, usize)> = std::thread::scope(|sc| {
+        let hs: Vec<_> = picked
+            .iter()
+            .map(|(sig, (idx, tape, _v))| {
+                let target_sig = (*sig).clone();
+                let profile = spec.profile.clone();
+                let tape = tape.clone();
+                let is_extra = *idx == u64::MAX;
+                sc.spawn(move || {
+                    if is_extra {
+                        return (tape, 0);
+                    }
+                    let deadline = Instant::now() + Duration::from_secs(90);
+                    tape::minimise(
+                        tape,
+                        |cand| {
+                            let (o, _) = exec_run(engine, &profile, tier, Tape::replay(cand.to_vec()), false, known);
+                            o.violation.as_ref().is_some_and(|vv| vv.property == prop && vv.signature == target_sig)
+                        },
+                        6000,
+                        deadline,
+                    )
+                })
+            })
+            .collect();
+        hs.into_iter().map(|h| h.join().expect("minimiser thread")).collect()
+    });
+    for ((sig, (idx, tape, v)), (min_tape, execs)) in picked.iter().zip(minimised.into_iter()) {
+        let (sig, idx) = (*sig, idx);
         let is_extra = *idx == u64::MAX;
-        let (min_tape, execs) = if is_extra {
-            (tape.clone(), 0)
-        } else {
-            tape::minimise(
-                tape.clone(),
-                |cand| {
-                    let (o, _) = exec_run(engine, &spec.profile, tier, Tape::replay(cand.to_vec()), false, known);
-                    o.violation.as_ref().is_some_and(|vv| vv.property == prop && vv.signature == target_sig)
-                },
-                6000,
-                deadline,
-            )
-        };
         // decoded trace of the minimised run
         let (o2, _) = exec_run(engine, &spec.profile, tier, Tape::replay(min_tape.clone()), true, known);
         let (final_tape, final_v, trace) = match &o2.violation {
